@@ -706,6 +706,9 @@ def sym_exp(s):
             if ENGINE.concrete_transcendentals:
                 return SymR(Fraction(math.exp(float(x))))
 
+        if ENGINE.exp_underflow:
+            ENGINE.oblige("exp-overflow", z(x) <= RV(Fraction(70978, 100)), "exp argument <= 709.78")
+
         def ax(zx, y, prev):
             if ENGINE.exp_underflow:
                 ENGINE.assume(y >= 0, "Exp(x) >= 0; IEEE: Exp(x)==0 <=> x < -745.14")
@@ -723,21 +726,26 @@ def sym_exp(s):
             if not ENGINE.exp_underflow:
                 # functional equation Exp(a+b) = Exp(a) Exp(b), instantiated wherever one
                 # occurring argument is syntactically the sum of two others
-                def is0(e):
-                    r = z3.simplify(e)
+                def is0(a, b, c, sb=-1, sc=-1):
+                    """a + sb*b + sc*c == 0 syntactically (factored arithmetic, then z3.simplify)"""
+                    d = c_add(c_add(a, b, sb), c, sc)
+                    if isinstance(d, Fraction):
+                        return d == 0
+                    k, v, core = _fact(d)
+                    r = z3.simplify(core if core is not None else d)
                     return z3.is_rational_value(r) and r.numerator_as_long() == 0
                 allp = prev + [(zx, y)]
                 for i, (ax_, ay) in enumerate(allp):
                     for (bx, by) in allp[i:]:
-                        if is0(zx - ax_ - bx):
+                        if is0(zx, ax_, bx):
                             ENGINE.assume(y == ay * by, "Exp(a+b)=Exp(a)Exp(b) (instantiated)")
                 for (cx_, cy) in prev:
                     for (ax_, ay) in prev:
-                        if is0(cx_ - zx - ax_):
+                        if is0(cx_, zx, ax_):
                             ENGINE.assume(cy == y * ay)
-                    if is0(cx_ - zx - zx):
+                    if is0(cx_, zx, zx):
                         ENGINE.assume(cy == y * y)
-                    if is0(cx_ + zx):
+                    if is0(cx_, zx, F0, +1):
                         ENGINE.assume(cy * y == 1, "Exp(-a)Exp(a)=1 (instantiated)")
         return SymR(_uf_app("Exp", x, ax))
     # complex argument
